@@ -464,11 +464,9 @@ fn push_cases(
             let full_ext = format!("{}{}", stem_ext, ext);
             // location of the given path without any extension suffix
             let mut target = base.clone();
-            let mut above_root = false;
             for t in tail {
                 if *t == ".." {
-                    // `..` at the root: POSIX stays at the root, darklua's normalize pops it (F16)
-                    above_root |= target.is_empty();
+                    // `..` at the root stays at the root
                     target.pop();
                 } else {
                     target.push((*t).to_owned());
@@ -515,7 +513,7 @@ fn push_cases(
                         ext,
                         deco,
                         mask,
-                        region: if above_root { "F16" } else { u.region },
+                        region: u.region,
                     });
                 }
             }
@@ -1535,21 +1533,12 @@ A locator case is non-trivial when at least one candidate file exists (the loop 
         strings.push(p);
     }
     report.exhaustive.insert(format!("normalize: all strings of <= {} segments over 6 segment kinds, rooted or not", if thorough { 6 } else { 5 }), true);
-    let f16_known = known_entry(&known, "F16").is_some();
     for keep in [false, true] {
         let k = if keep { "1" } else { "0" };
-        let requests: Vec<String> = strings.iter().flat_map(|p| [format!("c15.norm {} {}", k, hx(p)), format!("c15.H {} {}", k, hx(p))]).collect();
+        let requests: Vec<String> = strings.iter().map(|p| format!("c15.norm {} {}", k, hx(p))).collect();
         let answers = model.ask_batch(&requests);
         for (i, p) in strings.iter().enumerate() {
-            let model_out = &answers[2 * i];
-            let in_h = match answers[2 * i + 1].as_str() {
-                "true" => true,
-                "false" => false,
-                other => {
-                    report.violation(Violation { kind: s("correspondence"), check: s("normalize-H"), what: format!("driver answered `{}`", other), input: json!({"op": "norm", "keep": keep, "path": p}), failing_input_found: false });
-                    continue;
-                }
-            };
+            let model_out = &answers[i];
             let real = std::panic::catch_unwind(|| real_norm(keep, p));
             let real_wire = match &real {
                 Ok(r) => wire(r),
@@ -1557,27 +1546,39 @@ A locator case is non-trivial when at least one candidate file exists (the loop 
             };
             let changed = real_wire != wire(Path::new(p));
             report.case(if changed { Some(("norm", keep, p.clone())) } else { None });
-            report.hist("normalize", if !in_h { "outside-H15 (pops root)" } else if changed { "changed" } else { "unchanged" });
+            let above_root = p.starts_with('/') && {
+                // `..` met while at the root (the region of the repaired F16), by the string walk
+                let mut depth = 0i32;
+                let mut hit = false;
+                for seg in p.split('/') {
+                    match seg {
+                        "" | "." => {}
+                        ".." => {
+                            if depth == 0 {
+                                hit = true;
+                            } else {
+                                depth -= 1;
+                            }
+                        }
+                        _ => depth += 1,
+                    }
+                }
+                hit
+            };
+            report.hist("normalize", if above_root { "`..` at the root" } else if changed { "changed" } else { "unchanged" });
             let oracle = if real.is_ok() { oracle_norm(keep, p) } else { Some(s("panic")) };
             if let Some(what) = &oracle {
-                if in_h || !f16_known {
-                    report.violation(Violation { kind: s("oracle"), check: s("normalize"), what: what.clone(), input: json!({"op": "norm", "keep": keep, "path": p}), failing_input_found: true });
-                } else {
-                    report.count("normalize_failures_in_F16_region", 1);
-                }
+                report.violation(Violation { kind: s("oracle"), check: s("normalize"), what: what.clone(), input: json!({"op": "norm", "keep": keep, "path": p}), failing_input_found: true });
             }
             if &real_wire != model_out {
                 // look for a property failure on this input or near it before blaming the model
-                let mut found = oracle.clone().filter(|_| in_h || !f16_known).map(|w| (p.clone(), w));
+                let mut found = oracle.clone().map(|w| (p.clone(), w));
                 let mut local = rng.fork();
                 for _ in 0..400 {
                     if found.is_some() {
                         break;
                     }
                     let q = mutate_path_string(p, &mut local);
-                    if model.ask(&format!("c15.H {} {}", k, hx(&q))) != "true" && f16_known {
-                        continue;
-                    }
                     if let Some(w) = oracle_norm(keep, &q) {
                         found = Some((q, w));
                     }
@@ -1954,7 +1955,7 @@ fn replay_known(report: &mut Report, known: &[Value]) {
 fn check_corpus_entry(report: &mut Report, model: &mut Model, v: &Value, known: &[Value]) {
     let input = if v["input"].is_object() { &v["input"] } else { v };
     // witnesses of listed findings live in the corpus too; they are judged by `replay_known`
-    if known.iter().any(|e| &e["witness"] == input) {
+    if known.iter().any(|e| e["status"] == "known" && &e["witness"] == input) {
         return;
     }
     match input["op"].as_str() {
@@ -1964,9 +1965,8 @@ fn check_corpus_entry(report: &mut Report, model: &mut Model, v: &Value, known: 
             let k = if keep { "1" } else { "0" };
             let real = wire(&real_norm(keep, p));
             let m = model.ask(&format!("c15.norm {} {}", k, hx(p)));
-            let in_h = model.ask(&format!("c15.H {} {}", k, hx(p))) == "true";
             report.case(Some(("corpus-norm", keep, p.to_owned())));
-            if let Some(what) = oracle_norm(keep, p).filter(|_| in_h) {
+            if let Some(what) = oracle_norm(keep, p) {
                 report.violation(Violation { kind: s("oracle"), check: s("corpus/normalize"), what, input: input.clone(), failing_input_found: true });
             } else if real != m {
                 report.violation(Violation { kind: s("correspondence"), check: s("corpus/normalize"), what: format!("real `{}` model `{}`", real, m), input: input.clone(), failing_input_found: false });
